@@ -142,6 +142,11 @@ func (*c03Prop) Gen(r *Rand, pl *Plan) Case {
 		if size > 14 {
 			maxLen = 16
 		}
+		if r.Chance(1, 4) {
+			// Sentence root: whole-input matching with its early exit on the first result reaching EOF
+			c.G.Nodes = append(c.G.Nodes, GNode{Op: "sentence", Kids: []int{c.G.Root}})
+			c.G.Root = len(c.G.Nodes) - 1
+		}
 		c.Input = c.G.genInput(r, alphabet, maxLen)
 	}
 	c.Prefix = genPrefix(r)
